@@ -308,7 +308,8 @@ package proj
 //@   opt noframe=SR,datum,float64
 //@   requires [sr] json != nil
 //@   requires [towgs84_has_0_3_or_7_values] (len(json.DatumParams) == 0 || len(json.DatumParams) == 3 || len(json.DatumParams) == 7) && (forall k string :: mapHas(datumDefs, k) ==> len(datumDefs[k].towgs84) == 0 || len(datumDefs[k].towgs84) == 3 || len(datumDefs[k].towgs84) == 7)
-//@   ensures [squares] json.A2 == json.A * json.A && json.B2 == json.B * json.B
+//@   ensures [a_squared] json.A2 == json.A * json.A
+//@   ensures [b_squared] json.B2 == json.B * json.B
 //@   ensures [eccentricity] !json.Ra ==> json.Es == (json.A2 - json.B2) / json.A2 && json.E == sqrt(json.Es)
 //@   ensures [second_eccentricity] json.Ep2 == (json.A2 - json.B2) / json.B2
 //@   ensures [authalic_radius] json.Ra ==> json.Es == 0
